@@ -59,6 +59,38 @@ pub fn handle(op: &str, req: &Value) -> Option<Value> {
                    "differs": scan.is_ok() && idx.is_ok() && scan != idx})
         },
         // the same statement before and after a restart of a durable engine (B-tree index rebuilt from its persisted keys)
+        // U2: a statement refused with a lock conflict must not have changed (or locked) any of the other rows it matches
+        "relational_tx_refused" => {
+            let e = RelationalEngine::new();
+            let cols = vec![Column::new("name", ColumnType::String), Column::new("age", ColumnType::Int)];
+            if let Err(err) = e.create_table("people", Schema::new(cols)) { return Some(json!({"error": err.to_string()})); }
+            let _ = e.create_index("people", "age");
+            for (n, a) in [("a", 10), ("b", 20), ("c", 30), ("d", 40)] {
+                let _ = e.insert("people", HashMap::from([("name".to_string(), RV::String(n.to_string())), ("age".to_string(), RV::Int(a))]));
+            }
+            let ages = |e: &RelationalEngine| -> Vec<i64> {
+                let mut rows = e.select("people", Condition::True).unwrap_or_default();
+                rows.sort_by_key(|r| r.id);
+                rows.iter().map(|r| match r.get("age") { Some(RV::Int(v)) => *v, _ => -1 }).collect()
+            };
+            let delete = req["statement"].as_str() == Some("tx_delete");
+            let mut bad: Vec<String> = vec![];
+            // the row held by the other transaction is, in turn, each row of the table
+            for held in ["a", "b", "c", "d"] {
+                let tx_a = e.begin_transaction();
+                let _ = e.tx_update(tx_a, "people", Condition::Eq("name".to_string(), RV::String(held.to_string())), HashMap::from([("name".to_string(), RV::String(held.to_string()))]));
+                let before = ages(&e);
+                let tx_b = e.begin_transaction();
+                let r = if delete { e.tx_delete(tx_b, "people", Condition::True) } else { e.tx_update(tx_b, "people", Condition::True, HashMap::from([("age".to_string(), RV::Int(99))])) };
+                if r.is_ok() { bad.push(format!("row {held} held by another transaction, yet the statement succeeded")); }
+                if ages(&e) != before { bad.push(format!("row {held} held: refused statement left {:?}, was {:?}", ages(&e), before)); }
+                if e.tx_manager().locks_held_by(tx_b) != 0 { bad.push(format!("row {held} held: the refused transaction holds {} locks", e.tx_manager().locks_held_by(tx_b))); }
+                let _ = e.commit(tx_b);
+                let _ = e.rollback(tx_a);
+                if ages(&e) != vec![10, 20, 30, 40] { bad.push(format!("after commit of the refused and rollback of the holder: {:?}", ages(&e))); break; }
+            }
+            json!({"problems": bad, "violates": !bad.is_empty()})
+        },
         "relational_rollback" => {
             // U1: a table with a hash and an ordered index on x; one transaction performing, on ONE row where possible, the
             // statements whose undo entries the witness lists (so that the order of undo matters); rollback; every row and every
